@@ -37,6 +37,8 @@ type c14Case struct {
 	A      []int  `json:"a"`
 	B      []int  `json:"b"`
 	Dtype  string `json:"dtype"`
+	// Special > 0: float sources carry bit patterns that only an exact copy preserves (-0, NaN payloads)
+	Special int `json:"special,omitempty"`
 }
 
 func dtypeByName(name string) tensor.Dtype {
@@ -54,6 +56,15 @@ func c14Check(c c14Case) (viol string, class string) {
 	// distinct contents for A and B so that a swap is visible
 	A := mkT(c.A, backingOf(dt, prod(c.A), func(i int) float64 { return float64(i + 1) }))
 	B := mkT(c.B, backingOf(dt, prod(c.B), func(i int) float64 { return float64(100 + i) }))
+	if c.Special > 0 && isFloat(dt) {
+		sp := rangeSpecialT(dt, c.A, c.Special)
+		if len(c.A) > 0 {
+			A = sp
+		}
+		if len(c.B) > 0 {
+			B = rangeSpecialT(dt, c.B, c.Special+1)
+		}
+	}
 	srcA, srcB := bitsAll(A), bitsAll(B)
 	sA, sB := snap(A), snap(B)
 
@@ -186,7 +197,7 @@ func TestC14(t *testing.T) {
 					continue
 				}
 				for _, b := range shapes {
-					c := c14Case{helper, a, b, "float32"}
+					c := c14Case{helper, a, b, "float32", 0}
 					v, cls := c14Check(c)
 					ev.Case("enum-"+helper, fmt.Sprintf("%v x %v", a, b), !eqInts(a, b), cls)
 					if v != "" {
@@ -212,7 +223,7 @@ func TestC14(t *testing.T) {
 		if rapid.IntRange(0, 3).Draw(rt, "corrupt") == 0 {
 			a, b, _ = corruptPair(rt, a, b)
 		}
-		c := c14Case{helper, a, b, dt.String()}
+		c := c14Case{helper, a, b, dt.String(), rapid.IntRange(0, 40).Draw(rt, "special")}
 		v, cls := c14Check(c)
 		ev.Case("gen", fmt.Sprintf("%s %s %v x %v", helper, dt, a, b), !eqInts(a, b), cls, "dtype-"+dt.String())
 		if v != "" {
